@@ -45,8 +45,13 @@ def oracle_with(to_gbp):
         # what the pre-pass attached (H2)
         pre = next((s for s in obs.get("snapshots", []) if s.get("phase") == "prepass"), None)
         if pre is None:
-            v.append({"clause": "hook-missing", "detail": "no pre-pass snapshot recorded"})
-            return v
+            from ..probe import hooks_available
+            if hooks_available():
+                v.append({"clause": "hook-missing", "detail": "no pre-pass snapshot recorded"})
+                return v
+            # the tree does not compile with verif-hooks (see build.py): what the pre-pass attached cannot be observed;
+            # fall back to conservation against the amounts the events must move under the model's reading(s)
+            cnt["hook_unavailable:prepass_offsets_not_observed"] += 1
         leg_cost = defaultdict(lambda: ZERO)
         legs_by_rule = defaultdict(set)
         for dd in lc.all_disposals(rep):
@@ -60,7 +65,7 @@ def oracle_with(to_gbp):
         for tk in tickers:
             ds = days.get(tk, [])
             base = sum((dy.C for dy in ds), ZERO)
-            offsets = sum((fr(l["cost_offset"]) for l in pre["lots"].get(tk, [])), ZERO)
+            offsets = sum((fr(l["cost_offset"]) for l in pre["lots"].get(tk, [])), ZERO) if pre is not None else None
             # events that must take effect: shares held (model position) at the event date.
             # With zero shares held the event must be ignored -- except that after a split whose
             # ratio is not a terminating decimal the tool may see a residue holding of ~1e-26
@@ -104,13 +109,27 @@ def oracle_with(to_gbp):
                     cnt["events_zero_holding_after_nonterminating_split"] += 1
                 else:
                     cnt["events_no_shares_held"] += 1
-            scale = abs(base) + abs(offsets) + abs(expected) + 1
+            scale = abs(base) + abs(offsets or 0) + abs(expected) + 1
             tolr = TOL_FINE * 10 ** 3 + Fraction(1, 10 ** 18) * scale
             admissible = {expected}
             for o_ in optional[:10]:
                 admissible |= {a_ + o_ for a_ in admissible}
             split_day = any(dy.splits and (dy.A or dy.S) for dy in ds)
             has_bnb = "BedAndBreakfast" in legs_by_rule[tk]
+            if offsets is None and split_day and has_bnb:
+                cnt["hook_unavailable:F15_shape_not_judged"] += 1
+                continue
+            if offsets is None:
+                closing = rep["holdings"].get(tk, (ZERO, ZERO))[1]
+                used = leg_cost[tk] + closing
+                if not any(abs(used - (base + a_)) <= tolr * 1000 for a_ in admissible):
+                    v.append({"clause": "cost-not-conserved",
+                              "signature": "cost-not-conserved",
+                              "detail": f"{tk}: legs {float(leg_cost[tk])!r} + closing {float(closing)!r} = {float(used)!r} != "
+                                        f"acquisitions {float(base)!r} + capital events {[float(a_) for a_ in sorted(admissible)][:4]} "
+                                        f"(hooks unavailable: model amounts used)"})
+                cnt["securities_checked_without_hook"] += 1
+                continue
             if not any(abs(offsets - a_) <= tolr for a_ in admissible) and split_day and has_bnb:
                 # finding F15: with a split on a trade date the 30-day look-ahead and the day loop disagree about
                 # the split, so the pool and the pre-pass can disagree about what is held
